@@ -1,0 +1,25 @@
+//go:build !verif
+
+package simdjson
+
+// Verification hooks (see verif_hooks_on.go). Without the verif build tag they compile to nothing.
+
+const (
+	verifEvAcquire = iota + 1
+	verifEvSend
+	verifEvSent
+	verifEvTermSend
+	verifEvTermSent
+	verifEvRecvGate
+	verifEvReceived
+	verifEvDrainStart
+	verifEvDrainReceived
+)
+
+func verifPipe(pj *internalParsedJson, ev int, n uint64, ic indexChan) {}
+
+func verifStreamNext() int { return 0 }
+
+func verifStreamParsed(seq int) {}
+
+func verifStreamReaderDone() {}
